@@ -315,4 +315,4 @@ def run_case(case, ctx):
 
 def stages(tier):
     q = tier == "quick"
-    return [HypStage("builds", build_case, examples=500 if q else 4000, shards=8 if q else 16)]
+    return [HypStage("builds", build_case, examples=500 if q else 12000, shards=8 if q else 16)]
